@@ -56,7 +56,8 @@ C[E + "Word.__init__"] = dict(
     raises={"InvalidArgumentTypeException": "not INT(min_chars) or (min_chars >= 1 and not INT(max_chars) and not NONE(max_chars))",
             "InvalidArgumentValueException": "INT(min_chars) and (min_chars < 1 or (INT(max_chars) and (max_chars < 1 or min_chars > max_chars)))"},
     # the pattern IS the method chain, for ALL bounds: AnyWordChar(g).at_least_at_most(min, max) [.enclose(WordBoundary())]
-    ensures="SAME_TEXT(TEXT(self), TEXT(WORD_CHAIN(min_chars, max_chars, is_global, is_extensible)))", returns="none", frame=FR)
+    ensures="SAME_TEXT(TEXT(self), TEXT(WORD_CHAIN(min_chars, max_chars, is_global, is_extensible)))", returns="wrapped_init",
+    value="WORD_CHAIN(min_chars, max_chars, is_global, is_extensible)", frame=FR)
 
 for cls, arg, chain in (("WordContains", "infix", "WORDCONTAINS_CHAIN"), ("WordStartsWith", "prefix", "WORDSTARTS_CHAIN"),
                         ("WordEndsWith", "suffix", "WORDENDS_CHAIN")):
@@ -64,7 +65,8 @@ for cls, arg, chain in (("WordContains", "infix", "WORDCONTAINS_CHAIN"), ("WordS
         params={"self": "newobj", arg: "affixes", "is_global": "boolc", "is_extensible": "bool"},
         raises={"InvalidArgumentTypeException": f"not ALLSTR({arg})"},
         # the pattern IS the chain Either(affixes) enclosed by / followed by / preceded by AnyWordChar(g).indefinite(), bounded
-        ensures=f"SAME_TEXT(TEXT(self), TEXT({chain}({arg}, is_global, is_extensible)))", returns="none", frame=FR,
+        ensures=f"SAME_TEXT(TEXT(self), TEXT({chain}({arg}, is_global, is_extensible)))", returns="wrapped_init",
+        value=f"{chain}({arg}, is_global, is_extensible)", frame=FR,
         max_paths=40000, slice_forks=True)
 
 C[E + "Date.__date_formats"] = dict(params={}, raises={}, ensures="sorted(result) == sorted(DATE_FORMATS())", returns="expr", result="DATE_FORMATS()",
@@ -73,7 +75,8 @@ C[E + "Date.__init__"] = dict(
     params={"self": "newobj", "formats": "formats", "is_extensible": "bool"},
     raises={"InvalidArgumentValueException": "not ALLDOC(formats)"},
     # the pattern is the alternation of the selected formats' patterns (each: Date.__date_pre, decided per format in C19)
-    ensures="SAME_TEXT(TEXT(self), TEXT(DATE_CHAIN(formats, is_extensible)))", returns="none", lists="concrete", frame=FR)
+    ensures="SAME_TEXT(TEXT(self), TEXT(DATE_CHAIN(formats, is_extensible)))", returns="wrapped_init",
+    value="DATE_CHAIN(formats, is_extensible)", lists="concrete", frame=FR)
 
 
 # ---- the public Integer / Decimal classes: the template's documented conditions, unchanged ---------------------------
